@@ -14,6 +14,9 @@ Round 4: the reducer-over-penalty order is checked against the statement (known
 finding D24); reduced() is decided on every return path; SetObjective's early
 return is truth-table-equivalent to `cost unchanged and ExtraArgs unchanged`;
 every constrained image stored by Nelder-Mead / Powell is cast to float64.
+Round 6: a change of the constraints invalidates the decorated objective like a
+change of penalty or reducer; the simplex is clipped only against ranges that
+are in force; an ensemble draws starting points only while it has no members.
 NOT decided: identity of arrays at run time, float
 equality, reducers on array-valued costs, Powell's monotonicity (brent).
 """
@@ -571,7 +574,9 @@ def penalty_and_reducer_changes_take_effect(ctx):
     from . import invalidate
     for key, anchor in CONCRETE_SOLVERS.items():
         cls = ctx.cls(anchor)
-        n, decoin = invalidate.check_class(ctx, key, cls, only_attrs={'_penalty', '_reducer'}, label_prefix=key + ':')
+        # (the constraints too: the decorated cost nests them - wrap_nested - while _Step stores the vectors it constrained itself; if the two
+        # disagree the stored best is a vector the cost was never called with)
+        n, decoin = invalidate.check_class(ctx, key, cls, only_attrs={'_penalty', '_reducer', '_constraints'}, label_prefix=key + ':')
         ctx.need({'_penalty', '_reducer'} <= decoin, '%s: penalty/reducer not captured by the decorator?' % cls.name)
 
 
@@ -640,3 +645,17 @@ def objective_is_replaced_unless_cost_and_arguments_are_both_unchanged(ctx):
     ctx.check(eq, 'SetObjective#keep', 'early return iff cost unchanged and ExtraArgs unchanged (%d truth-table rows)' % rows,
               'SetObjective keeps the stored objective although cost or ExtraArgs changed: e.g. with %s true and all other tests false'
               % ([T.show(a)[:40] for a, v in (cex or {}).items() if v]), f, f.node)
+
+
+@rule('C01.n', min_instances=6)
+def the_simplex_is_rebuilt_only_inside_ranges_that_are_in_force(ctx):
+    """member energies match members: Nelder-Mead's _setSimplexWithinRangeBoundary clips vertex 0 into the strict ranges only while strict ranges are in force (SetStrictRanges(False) keeps the old numbers but switches them off) - clipped against ranges that are off, the evaluated vertex 0 is replaced by its clipped image and keeps the old energy (reference summaries shared with C02.e)"""
+    from .c02 import members_clipped_on_decoration
+    members_clipped_on_decoration(ctx)
+
+
+@rule('C01.o', min_instances=1)
+def ensemble_members_keep_their_starting_points(ctx):
+    """an ensemble member's stored energies belong to its stored vectors: the ensemble draws starting points only while it has no members (shared with C09.k)"""
+    from .c09 import starting_points_are_drawn_once
+    starting_points_are_drawn_once(ctx)
